@@ -88,21 +88,22 @@ type scSpec struct {
 
 // caseSpec describes one handler return value (or handler error).
 type caseSpec struct {
-	Idx        int        `json:"idx"`
-	Key        string     `json:"key"`
-	Method     string     `json:"method"`
-	Shape      string     `json:"shape"` // atom | extra | combo | error
-	Label      string     `json:"label,omitempty"`
-	Items      []itemSpec `json:"items,omitempty"`
-	Roles      []string   `json:"roles,omitempty"`
-	IsError    bool       `json:"is_error,omitempty"`
-	NilContent bool       `json:"nil_content,omitempty"`
-	SC         *scSpec    `json:"sc,omitempty"`
-	Meta       *scSpec    `json:"meta,omitempty"` // _meta of a tool / prompt result
-	Desc       *itemSpec  `json:"desc,omitempty"`
-	Single     bool       `json:"single,omitempty"`
-	Err        *itemSpec  `json:"err,omitempty"`
-	Big        bool       `json:"big,omitempty"`
+	Idx        int         `json:"idx"`
+	Key        string      `json:"key"`
+	Method     string      `json:"method"`
+	Shape      string      `json:"shape"` // atom | extra | combo | error
+	Label      string      `json:"label,omitempty"`
+	Items      []itemSpec  `json:"items,omitempty"`
+	Roles      []string    `json:"roles,omitempty"`
+	IsError    bool        `json:"is_error,omitempty"`
+	NilContent bool        `json:"nil_content,omitempty"`
+	SC         *scSpec     `json:"sc,omitempty"`
+	Meta       *scSpec     `json:"meta,omitempty"` // _meta of a tool / prompt result
+	Desc       *itemSpec   `json:"desc,omitempty"`
+	Single     bool        `json:"single,omitempty"`
+	Err        *itemSpec   `json:"err,omitempty"`
+	EV         *errValSpec `json:"ev,omitempty"` // the error VALUE (errvals.go); nil = errors.New(text)
+	Big        bool        `json:"big,omitempty"`
 }
 
 func (c *caseSpec) uri() string { return fmt.Sprintf("res://case/%d", c.Idx) }
@@ -120,6 +121,9 @@ func (c *caseSpec) kindSeq() string {
 	s := strings.Join(ks, ",")
 	if c.Err != nil {
 		s = "handler-error"
+		if c.EV != nil {
+			s += ":" + c.evTag()
+		}
 	}
 	if c.IsError {
 		s += "+isError"
@@ -435,7 +439,7 @@ func buildSC(sp *scSpec) interface{} {
 
 // ---------- case values ----------
 
-func (c *caseSpec) errMsg() string { return buildText(c.Err.Class, c.Err.Salt) }
+func (c *caseSpec) errMsg() string { return c.handlerErr().Error() }
 
 func (c *caseSpec) toolResult() *mcp.CallToolResult {
 	res := &mcp.CallToolResult{IsError: c.IsError}
@@ -672,6 +676,9 @@ func buildTable(rng *rand.Rand, tier string, combos int) []caseSpec {
 			b.add(c)
 		}
 	}
+
+	// handler error values (errvals.go); last, so that the cases before them are what they were without them
+	b.addErrValueCases()
 	return b.t
 }
 
